@@ -330,8 +330,11 @@ def analyse_omp_index():
     et, ft = c_expr(t)
     ef, ff = c_expr(f)
     defs.append(("c_prepare_cb", sorted(set(fx) | set(fy) | set(ft) | set(ff)), "(if %s >? %s then %s else %s)" % (ex, ey, et, ef)))
-    one(fn, r"\(\*cbs\)\[ir\]\s*=\s*cb;\s*\(\*rls\)\[ir\]\s*=\s*rs;", "cbs/rls stores")
-    e, fv = c_expr(one(fn, r"\brs\s*\+=\s*([^;]+);", "rs increment"))
+    # the tail of the row loop, statement after statement: stores, UNCONDITIONAL row-offset increment, counter, end of loop
+    e, fv = c_expr(one(fn, r"\(\*cbs\)\[ir\]\s*=\s*cb;\s*\(\*rls\)\[ir\]\s*=\s*rs;\s*rs\s*\+=\s*([^;]+);\s*ir\s*\+=\s*1;\s*\}",
+                       "cbs/rls stores followed by the rs increment"))
+    if len(re.findall(r"\brs\s*\+=", fns[fn])) != 1:
+        raise TranslateError("%s: rs is incremented in more than one place" % fn)
     defs.append(("c_prepare_rs_inc", fv, e))
     one(fn, r"ir = 0;\s*rs = (0);", "rs initialisation")
     for k, fn in enumerate(OMP_FUNCTIONS):
